@@ -42,7 +42,7 @@ TIERS = {
 }
 
 OBSERVE_OPS = ["touch", "contains", "keys", "glyphorder", "glyphset", "bestcmap", "tabledata", "save", "savexml", "deepcopy", "revmap", "ensure_table"]
-EDIT_OPS = ["name", "rev", "os2", "hmtx", "vmtx", "headflags", "cmap", "glyfshift", "compbase", "deltable", "opaque", "reorder", "scale", "subset", "instantiate", "cffwidth", "gposvalue"]
+EDIT_OPS = ["name", "rev", "os2", "hmtx", "vmtx", "headflags", "cmap", "glyfshift", "compbase", "cffshift", "deltable", "opaque", "reorder", "scale", "subset", "instantiate", "cffwidth", "gposvalue"]
 BIG_EDITS = ("reorder", "scale", "subset", "instantiate")
 
 
@@ -569,6 +569,25 @@ def apply_edit(font, name, a):
             pd = c.private
             if hasattr(c, "width") and pd is not None:
                 c.width = pd.nominalWidthX + 1 + (k % 50)
+        return font
+    if name == "cffshift":
+        # moves the outline of one CFF glyph by editing its charstring program in place (the first moveto's
+        # operands), the way a glyph editor working on the decompiled program does
+        if "CFF " in font:
+            cff = font["CFF "].cff
+            td = cff[cff.fontNames[0]]
+            cs = td.CharStrings
+            names = sorted(cs.keys())
+            for j in range(min(len(names), 40)):
+                c = cs[names[(k + j) % len(names)]]
+                c.decompile()
+                pr = c.program
+                for i_, tok in enumerate(pr):
+                    if tok in ("rmoveto", "hmoveto", "vmoveto"):
+                        if i_ >= 1 and isinstance(pr[i_ - 1], (int, float)):
+                            pr[i_ - 1] = pr[i_ - 1] + 300 + k % 700
+                            return font
+                        break
         return font
     if name == "gposvalue":
         if "GPOS" in font and font["GPOS"].table.LookupList:
